@@ -3,6 +3,8 @@
 package c16
 
 import (
+	"crypto/sha512"
+	"hash"
 	"bytes"
 	"crypto/sha256"
 	"fmt"
@@ -74,6 +76,12 @@ func Run(c *vf.Check) {
 			jobs = append(jobs, func() { runECIES(c, g, part, 4) })
 		}
 	}
+	for _, g := range groups.All() {
+		g := g
+		if g.MulNil {
+			jobs = append(jobs, func() { runECIESHashes(c, g) })
+		}
+	}
 	for _, ps := range groups.PairingSuites() {
 		ps := ps
 		if groups.ByName(ps.Name + ".G2").Hash {
@@ -92,7 +100,7 @@ func Run(c *vf.Check) {
 		}
 	}
 	vf.Parallel(len(jobs), func(i int) { jobs[i]() })
-	c.Finish("engine E: ECIES on {Ed25519, P-256, QR512, bn256.G1, kilic.G1}, IBE CCA on both assignments / CPA on the suites with the needed hash-to-group, anonymous-set encryption on {Ed25519, P-256, bn256.G1}: every message length 0..80 and {127,128,129,255,256,4095,4096} (IBE: every length 0..2*hash size+2) x 4 plaintext patterns; round trip = plaintext, or refusal at encryption; wrong key / identity / recipient index => error (authenticated schemes; IBE-CCA: judged for the empty message - the known finding - and from 8 bytes on, in between the outcome depends on randomness kyber draws itself with probability 2^(-8 len)); one bit per byte of the ciphertext flipped (thorough: every bit for lengths <= 80) and every truncation => error, never a panic, never another plaintext; no aligned 16-byte plaintext window at the same offset of the ciphertext body; anonymous-set: sizes 1..6 on Ed25519, 1..4 on the others (thorough 1..6) x every recipient index. "+
+	c.Finish("engine E: ECIES on {Ed25519, P-256, QR512, bn256.G1, kilic.G1}, IBE CCA on both assignments / CPA on the suites with the needed hash-to-group, anonymous-set encryption on {Ed25519, P-256, bn256.G1}: every message length 0..80 and {127,128,129,255,256,4095,4096} (IBE: every length 0..2*hash size+2) x 4 plaintext patterns; round trip = plaintext, or refusal at encryption; wrong key / identity / recipient index => error (authenticated schemes; IBE-CCA: judged for the empty message - the known finding - and from 8 bytes on, in between the outcome depends on randomness kyber draws itself with probability 2^(-8 len)); one bit per byte of the ciphertext flipped (thorough: every bit for lengths <= 80) and every truncation => error, never a panic, never another plaintext; no aligned 16-byte plaintext window at the same offset of the ciphertext body; ECIES with the hash option nil / sha256.New / sha512.New on either side on every group with an implicit generator (17): decrypts under every spelling of the same hash only; CPA bodies extended in transit never panic; anonymous-set messages of 65535, 65536, 65537 and 200001 bytes; anonymous-set: sizes 1..6 on Ed25519, 1..4 on the others (thorough 1..6) x every recipient index. "+
 		"non-trivial = non-empty messages; distinct by (scheme, group, length, pattern, mutation class)",
 		[]string{"ECIES, IBE and anon.Encrypt draw from crypto/rand inside kyber: only verdicts and plaintexts are compared, never ciphertext bytes", "every Decrypt gets its own copy of the ciphertext"}, nil)
 }
@@ -440,6 +448,15 @@ func runIBE(c *vf.Check, ps groups.PS, mode string) {
 							_, _ = ibe.DecryptCPAonG1(s, privK, &ibe.CiphertextCPA{RP: ct.RP.Clone(), C: append([]byte{}, ct.C[:l]...)})
 						})
 					}
+					// bytes appended to the body in transit (1, a hash size, more): no panic (the scheme is not authenticated)
+					for _, extra := range []int{1, hs - n, hs - n + 1, hs, 3 * hs} {
+						if extra <= 0 {
+							continue
+						}
+						guard(x, pk+"/panic", fmt.Sprintf("%s body extended by %d bytes", id, extra), func() {
+							_, _ = ibe.DecryptCPAonG1(s, privK, &ibe.CiphertextCPA{RP: ct.RP.Clone(), C: append(append([]byte{}, ct.C...), make([]byte, extra)...)})
+						})
+					}
 				}
 			})
 			c.Count("transitions", 1)
@@ -449,6 +466,65 @@ func runIBE(c *vf.Check, ps groups.PS, mode string) {
 			}
 			c.Class("ibe/"+mode, func() any { return id })
 		}
+	}
+}
+
+// runECIESHashes: every group of the registry that has an implicit generator, hash option nil (documented default:
+// SHA-256) and explicit hashes on either side: a ciphertext made under one spelling of a hash decrypts under every
+// spelling of the same hash and under no other hash.
+func runECIESHashes(c *vf.Check, g *groups.G) {
+	pk := "C16/ecies/" + g.Name
+	priv := alpha.ToScalar(g.Scalar(), alpha.Rand("c16-ecies", g.Order), g.Order)
+	pub := g.Point().Mul(priv, nil)
+	type hopt struct {
+		name string
+		f    func() hash.Hash
+		eff  string
+	}
+	hs := []hopt{{"nil", nil, "sha256"}, {"sha256.New", sha256.New, "sha256"}, {"sha512.New", sha512.New, "sha512"}}
+	for _, he := range hs {
+		he := he
+		id := fmt.Sprintf("ecies %s: encrypted with hash option %s", g.Name, he.name)
+		var ct []byte
+		var cerr error
+		have := false
+		c.Case(id, pk, func(x *vf.Ctx) {
+			msg := plaintext(45, 1)
+			guard(x, pk+"/panic", id+" encrypt", func() {
+				if !have {
+					ct, cerr = ecies.Encrypt(g.Group, pub, append([]byte{}, msg...), he.f)
+					have = true
+				}
+			})
+			if x.Failed() {
+				return
+			}
+			if cerr != nil {
+				x.Failf(pk+"/encrypt", "%s: Encrypt refused: %v", id, cerr)
+				return
+			}
+			for _, hd := range hs {
+				var got []byte
+				var err error
+				guard(x, pk+"/panic", id+" decrypt with "+hd.name, func() {
+					got, err = ecies.Decrypt(g.Group, priv, append([]byte{}, ct...), hd.f)
+				})
+				c.Eval(1)
+				if x.Failed() {
+					return
+				}
+				if hd.eff == he.eff && (err != nil || !bytes.Equal(got, msg)) {
+					x.Failf(pk+"/roundtrip", "%s: decryption with hash option %s (the same hash) fails: %v", id, hd.name, err)
+					return
+				}
+				if hd.eff != he.eff && err == nil {
+					x.Failf(pk+"/other-hash-accepted", "%s: decryption with hash option %s (another hash) succeeds", id, hd.name)
+					return
+				}
+			}
+		})
+		c.Count("transitions", 3)
+		c.Nontrivial(id)
 	}
 }
 
@@ -485,6 +561,9 @@ func runAnon(c *vf.Check, sname string, n int) {
 	lens := []int{0, 1, 15, 16, 17, 33, 64, 129, 4096}
 	if n == 2 {
 		lens = lengths(false)
+		if sname == "ed25519" {
+			lens = append(lens, 65535, 65536, 65537, 200001) // beyond any internal chunk size
+		}
 	}
 	for _, ml := range lens {
 		ml := ml
